@@ -12,7 +12,7 @@
 From Coq Require Import ZArith QArith Qabs Bool List Ascii String Lia.
 From DC Require Import Model.Base Model.Loc Model.Bio Model.Pattern Model.MSpace Model.Specs
                        Generated.GenTables Proofs.SpecsDefs Proofs.BioA Proofs.MSpaceDefs Proofs.SpecsCodon
-                       Model.Solver Proofs.SolverB Proofs.SolverC Proofs.SolverE Proofs.Builtins Proofs.CaiEnd Proofs.CaiFull Proofs.CaiFullRev.
+                       Model.Solver Proofs.SolverB Proofs.SolverC Proofs.SolverE Proofs.Builtins Proofs.CaiEnd Proofs.CaiFull Proofs.CaiFullRev Proofs.CaiFullKeep.
 Import ListNotations.
 Open Scope Z_scope.
 
@@ -193,6 +193,35 @@ Theorem C07_cai_optimize_end_to_end :
        nth_error (cur _ st') (Z.to_nat i) = nth_error (cur _ st) (Z.to_nat i)).
 Proof. exact cai_optimize_end_to_end. Qed.
 Print Assumptions C07_cai_optimize_end_to_end.
+
+(* with the start-codon policy "keep" (the first codon is frozen to the one of the supplied sequence):
+   the first codon is untouched, every OTHER codon still encodes its residue and ends as a
+   most-frequent synonym.  The evaluation keeps reporting the frozen first codon when it is not a best
+   synonym: the solver skips locations whose local space is frozen (CaiFullKeep.v, section SolverFrozen:
+   optimize closes every gap that is not frozen, for any separable objective). *)
+Theorem C07_cai_optimize_end_to_end_keep_start :
+  forall (name : string) (T : gtable) (lf lb : list (dna * Q)) (l : loc) (tr : astr) (s0 : dna)
+         (cfg : settings) (passive : Specs.spec -> bool) st o st',
+    In (name, T) genetic_tables -> no_dual_stop T = true ->
+    wf_spec (SMaximizeCAI lf lb l) (zlen s0) -> lstrand l = 1 ->
+    loc_len l = 3 * zlen tr -> 1 <= zlen tr ->
+    tables_consistent T lf lb ->
+    64 < st_threshold cfg ->
+    let space := from_constraints s0 (restrict_nucleotides (STranslation T l tr StartKeep) false s0) in
+    passive (SMaximizeCAI lf lb l) = false ->
+    state_good Specs.spec space (zlen s0) st ->
+    optimize Specs.spec b_ev Specs.localized b_reinit tr_enforced (fun _ => Some 0%Q) b_boost passive (fun _ => None)
+             cfg space [STranslation T l tr StartKeep] [SMaximizeCAI lf lb l] st = (o, st') ->
+    o = ODone /\
+    slice (cur _ st') (lstart l) (lstart l + 3) = slice s0 (lstart l) (lstart l + 3) /\
+    (forall i, 1 <= i < loc_len l / 3 -> codon_best lf lb l (cur _ st') i) /\
+    (forall i aa, 1 <= i < zlen tr -> nth_error tr (Z.to_nat i) = Some aa ->
+        codon_aa T (slice (cur _ st') (lstart l + 3 * i) (lstart l + 3 * i + 3)) = Some aa) /\
+    zlen (cur _ st') = zlen s0 /\
+    (forall i, 0 <= i -> ~ (lstart l <= i < lend l) ->
+       nth_error (cur _ st') (Z.to_nat i) = nth_error (cur _ st) (Z.to_nat i)).
+Proof. exact cai_optimize_end_to_end_keep_start. Qed.
+Print Assumptions C07_cai_optimize_end_to_end_keep_start.
 
 (* the same on the REVERSE strand *)
 Theorem C07_cai_optimize_end_to_end_reverse_strand :
